@@ -80,11 +80,12 @@ CHECKS = {
         note=NOTE + " C02 specifically: the theorems are about the component models and the Space/Pt model; that a real "
              "simulation's step is a history of component calls is proved for the five modelled example classes "
              "(Props/Examples.lean), for MultiCorridor, MultiAgentGridSim, ReachTheTargetSim (every reachable state, "
-             "Props/Reach.lean), for the two pacman classes (Props/Pacman.lean, Props/PacmanHist.lean) and in part for BroadcastSim of "
+             "Props/Reach.lean), for the two pacman classes (Props/Pacman.lean, Props/PacmanHist.lean) and for BroadcastSim of "
              "comms_blocking.py (Props/Broadcast.lean: invariant, observations, no-raise under BC.cfgHypb, reset forgets, "
              "delivery sound and complete - broadcast_delivery -, the step clause of the judge - "
-             "broadcast_hist_step_partial; float64 messages tied per call within 2^-40; the whole-history statement "
-             "broadcast_hist is judged at run time by BC.specBC); gymnasium's `contains` is monitored at run time, not proved; rejected "
+             "broadcast_hist_step_partial, and the whole-history statement broadcast_hist: BC.bcPre implies BC.specBC on the "
+             "model's trace, Props/BroadcastHist.lean; float64 messages tied per call within 2^-40; BC.specBC is also "
+             "evaluated at run time on every trace); gymnasium's `contains` is monitored at run time, not proved; rejected "
              "assignments through every public setter of every component of a session (harness/poke.py) must leave what was "
              "configured in force; how a Python value is read as a "
              "point (harness/c02sims.py dump_point) is harness code; C02-E1 (the comms_blocking example's "
